@@ -163,6 +163,21 @@ CLAIMED['C14'] = dict(
          'Bounded: seeded concrete handler chains against an independent fold on the real code.',
     design='§6 C14')
 
+CLAIMED['C16'] = dict(
+    text='Sequential typestate proof on the real source: Connection.__init__ is executed and the object is then placed in every '
+         'abstract state (5 thread states x 5 transport states); connect, status, disconnect and disconnect(immediate) are each '
+         'verified from every state: refusal with InvalidState and an untouched object when a thread is active or a successor '
+         'exists, exactly one thread started from Idle, exactly one successor (previous = ending thread) from Ending, a refused '
+         'TCP connect propagates and starts nothing, disconnect never raises, sets connected False, interrupts the successor-or-'
+         'current thread, writes nothing when immediate, closes once, and is idempotent; the lock is released on every path. '
+         'The real _connect is verified against models of the socket layer with a failure injected at each stage, and disconnect '
+         'is shown total after every exit. Histories of any length follow by induction over the preserved invariant; hand-over '
+         'and the finally-clause of run are C14.thread-wrapper.',
+    note='NOT decided: interleavings of several user threads, and liveness (that an interrupted thread is scheduled and '
+         'terminates). Trusted: RLock/Thread.start/join semantics, socket-layer failure model. Bounded: all call histories of '
+         'length <= 4 against a refusing port on the real Connection, and one live loopback scenario with real threads.',
+    design='§6 C16')
+
 PLANNED = {
     'C01': 'check not built yet (DESIGN §6 C01): frame contracts on Packet.write/_write_buffer/read_packet',
     'C02': 'check not built yet (DESIGN §6 C02)',
